@@ -30,9 +30,9 @@ theorem ensureScroll_run (hs : List Nat) (s : St) (hc : s.cursor < 2 ^ 64) (p : 
   · simp [runMethod, exec, DynSkelExpected.ensureScroll, splitBlock, evalB, evalI, lookup, fieldEnv, store, retVal, h]
   · simp [runMethod, exec, DynSkelExpected.ensureScroll, splitBlock, evalB, evalI, lookup, fieldEnv, store, h, hU]
 
-theorem setCursor_interp (hs : List Nat) (s : St) (c : Nat) (hc : c < 2 ^ 63) :
+theorem setCursor_interp (hs : List Nat) (s : St) (c : Nat) (hc : c < 2 ^ 64) :
     (runMethod hs DynSkelExpected.ensureScroll DynSkelExpected.setCursor s c).map (·.st) = some (DynList.setCursor s c) := by
-  have hU : toUint (c : Int) = c := toUint_small _ (by omega)
+  have hU : toUint (c : Int) = c := toUint_small _ hc
   have he := ensureScroll_interp hs { s with cursor := c } (by show c < 2 ^ 64; omega) 25
   unfold DynList.setCursor
   simp only [runMethod]
@@ -44,17 +44,15 @@ theorem setPendingScroll_interp (hs : List Nat) (s : St) (k : Int) :
     (runMethod hs DynSkelExpected.ensureScroll DynSkelExpected.setPendingScroll s k).map (·.st) = some (DynList.setPending s k) := by
   simp [runMethod, exec, DynSkelExpected.setPendingScroll, evalI, lookup, store, DynList.setPending]
 
-theorem nextItem_interp (hs : List Nat) (s : St) (hc : s.cursor < 2 ^ 63) :
+theorem nextItem_interp (hs : List Nat) (s : St) (hc : s.cursor < 2 ^ 64) :
     (runMethod hs DynSkelExpected.ensureScroll DynSkelExpected.nextItem s 0).map (fun r => (r.st, r.ret)) =
       some ((DynList.nextItem hs s).1, some (DynList.nextItem hs s).2) := by
-  have hU : toUint ((s.cursor : Int) + 1) = s.cursor + 1 := by
-    have := toUint_small (s.cursor + 1) (by omega)
-    simpa using this
-  have hua : uadd s.cursor 1 = s.cursor + 1 := by unfold uadd U; omega
-  have he := ensureScroll_interp hs { s with cursor := s.cursor + 1 } (by show s.cursor + 1 < 2 ^ 64; omega) 23
+  have hU : toUint ((s.cursor : Int) + 1) = uadd s.cursor 1 := by
+    unfold toUint uadd; rw [U_val]; unfold U; omega
+  have hlt : uadd s.cursor 1 < 2 ^ 64 := by unfold uadd U; omega
+  have he := ensureScroll_interp hs { s with cursor := uadd s.cursor 1 } hlt 23
   unfold DynList.nextItem
-  rw [hua]
-  cases hb : builder hs (s.cursor + 1) with
+  cases hb : builder hs (uadd s.cursor 1) with
   | none =>
     simp [runMethod, exec, DynSkelExpected.nextItem, splitBlock, evalB, evalI, lookup, fieldEnv, store, retVal, hU, hb]
   | some h =>
@@ -62,7 +60,7 @@ theorem nextItem_interp (hs : List Nat) (s : St) (hc : s.cursor < 2 ^ 63) :
     rw [he]
     simp [exec, retVal]
 
-theorem prevItem_interp (hs : List Nat) (s : St) (hc : s.cursor < 2 ^ 63) :
+theorem prevItem_interp (hs : List Nat) (s : St) (hc : s.cursor < 2 ^ 64) :
     (runMethod hs DynSkelExpected.ensureScroll DynSkelExpected.prevItem s 0).map (fun r => (r.st, r.ret)) =
       some ((DynList.prevItem hs s).1, some (DynList.prevItem hs s).2) := by
   unfold DynList.prevItem
